@@ -37,6 +37,8 @@ func main() {
 		unit(c)
 	case "e2e":
 		e2e(c)
+	case "race":
+		raceProbe(c)
 	default:
 		panic("unknown mode")
 	}
